@@ -324,7 +324,7 @@ def rand_chain(rng, L, nops=3, coeffs=DYADIC, charges=True, allow_zero=False, po
     return ptn.OpChain(oids, qn, co, ist)
 
 
-def rand_graph(rng, L, idbase=0, maxw=3, nops=3, charges=True):
+def rand_graph(rng, L, idbase=0, maxw=3, nops=3, charges=True, pool=None):
     """Random consistent layered graph with parallel edges, multi-operator edges, non-contiguous ids."""
     widths = [1] + [int(rng.integers(1, maxw + 1)) for _ in range(L - 1)] + [1]
     nid = idbase
@@ -351,13 +351,13 @@ def rand_graph(rng, L, idbase=0, maxw=3, nops=3, charges=True):
             pairs.append((int(rng.choice(layers[l])), int(rng.choice(layers[l + 1]))))
         for a, b in pairs:
             nop = int(rng.integers(1, 3))
-            opics = [(int(rng.integers(0, nops)), float(rng.choice([-1, -.5, .5, 1, 2]))) for _ in range(nop)]
+            opics = [(int(rng.integers(0, nops)) if pool is None else int(pool[int(rng.integers(0, min(nops, len(pool))))]), float(rng.choice([-1, -.5, .5, 1, 2]))) for _ in range(nop)]
             g.add_connect_edge(ptn.OpGraphEdge(eid, [a, b], opics))
             eid += int(rng.integers(1, 3))
     return g
 
 
-def rand_tree(rng, rem, nops=3, pleaf=0.25, maxch=3, root=True, pzero=0.0):
+def rand_tree(rng, rem, nops=3, pleaf=0.25, maxch=3, root=True, pzero=0.0, pool=None):
     """Returns (OpTreeNode, polynomial with variable-length words). pzero: probability of an exactly-zero edge coefficient."""
     if rem == 0 or (not root and rng.random() < pleaf):
         return ptn.OpTreeNode([], 0), {(): 1.0}
@@ -365,8 +365,8 @@ def rand_tree(rng, rem, nops=3, pleaf=0.25, maxch=3, root=True, pzero=0.0):
     node = ptn.OpTreeNode([], 0)
     poly = {}
     for _ in range(nch):
-        child, cp = rand_tree(rng, rem - 1, nops, pleaf, maxch, root=False, pzero=pzero)
-        oid = int(rng.integers(0, nops))
+        child, cp = rand_tree(rng, rem - 1, nops, pleaf, maxch, root=False, pzero=pzero, pool=pool)
+        oid = int(rng.integers(0, nops)) if pool is None else int(pool[int(rng.integers(0, min(nops, len(pool))))])
         co = 0.0 if rng.random() < pzero else float(rng.choice([-1, .5, 1, 2]))
         node.add_child(ptn.OpTreeEdge(oid, co, child))
         for w, c in cp.items():
